@@ -198,8 +198,75 @@ template <class L> std::string labOf(const Model &m, unsigned i, unsigned j) {
     return e ? labelStr(LabelAlpha<L>::value(e->v)) : "<none>";
 }
 
+// Copies of every class: copy construction, copy assignment over an empty and over a NON-EMPTY target of another
+// size, self-assignment, move construction and move assignment.  Every result has the value of the source (whole
+// state oracle + public-API key + ==), and changing the result leaves the source alone.
+template <class G> void copySemantics(const G &g, const Model &m, ClauseSink &sink) {
+    using T = Tr<G>;
+    ++sink.evaluated;
+    auto addSome = [](G &t, unsigned i, unsigned j, long v) {
+        if constexpr (T::fam == PLAIN) {
+            if constexpr (T::labelled) t.addEdge(i, j, LabelAlpha<typename T::Label>::value(v));
+            else t.addEdge(i, j);
+        } else if constexpr (T::fam == MULTI) t.addMultiedge(i, j, (BaseGraph::EdgeMultiplicity)(v + 2));
+        else t.addEdge(i, j, weightOf(v + 1));
+    };
+    auto target = [&]() { // a graph of another size that already holds edges (and labels) of its own
+        G t(m.n + 2);
+        addSome(t, 0, m.n + 1, 1);
+        addSome(t, m.n + 1, m.n + 1, 0);
+        addSome(t, m.n, 0, 1);
+        if (m.n > 0) addSome(t, 0, 0, 1);
+        return t;
+    };
+    const std::string want = keyOf(g, true, true), before = keyOf(g, true);
+    auto same = [&](const G &x, const std::string &how) {
+        if (keyOf(x, true, true) != want || !(x == g) || !(g == x) || (x != g)) { sink.fail("c09.copy", how + " differs from its source " + m.str() + ": got " + keyOf(x, true, true) + ", source " + want); return; }
+        ClauseSink inner;
+        checkState(x, m, inner);
+        for (auto &f : inner.failures) sink.fail("c09.copy", how + " of " + m.str() + ": " + f.second);
+    };
+    try {
+        G c(g);
+        same(c, "copy-constructed graph");
+        G a(0);
+        a = g;
+        same(a, "graph assigned over an empty one");
+        G t = target();
+        t = g;
+        same(t, "graph assigned over a non-empty graph of another size");
+        G &alias = t;
+        t = alias;
+        same(t, "self-assigned graph");
+        G src1(g);
+        G mv(std::move(src1));
+        same(mv, "move-constructed graph");
+        G src2(g);
+        G t2 = target();
+        t2 = std::move(src2);
+        same(t2, "graph move-assigned over a non-empty graph of another size");
+        // independence: change every result, the source keeps its value
+        for (G *x : {&c, &a, &t, &mv, &t2}) {
+            x->resize(m.n + 1);
+            addSome(*x, m.n, 0, 0);
+            if (m.n > 0) x->removeVertexFromEdgeList(0);
+            x->clearEdges();
+        }
+        if (keyOf(g, true) != before) sink.fail("c09.copy", "changing copies changed their source " + m.str());
+    } catch (...) {
+        std::string w;
+        Outcome oc = classifyCurrentException(&w);
+        sink.fail("c09.copy", "copying/assigning/moving threw " + std::string(outcomeName(oc)) + " (" + w + ") on " + m.str());
+    }
+}
+
 template <class G> void c09State(const G &g, const Model &m, ClauseSink &sink) {
     using T = Tr<G>;
+    copySemantics(g, m, sink);
+    if constexpr (T::fam != PLAIN) {
+        ++g_cases;
+        if (!m.e.empty()) ++g_nontrivial;
+    }
     if constexpr (T::fam == PLAIN) {
         using L = typename T::Label;
         using D = LabeledDirectedGraph<L>;
